@@ -36,7 +36,8 @@ func (g sgen) textBlock(label string) string {
 }
 
 // AddYAMLStyles draws Layout.YAMLStyles: which string values of the YAML
-// rendering are written by hand and how. Bodies and payloads are styled in 65%
+// rendering are written by hand and how. 15% of the descriptions get no style
+// at all; in the others bodies and payloads are styled in 65%
 // of the cases, other values in 20% (40% when they have several lines or a
 // tab); the style is drawn with weights that follow the content (block scalars
 // for multi-line text, wrapped plain / quoted scalars for one-line text) but
@@ -44,6 +45,9 @@ func (g sgen) textBlock(label string) string {
 // Marshal form for what a style cannot express.
 func AddYAMLStyles(t *rapid.T, m *Model) {
 	g := sgen{t: t}
+	if g.chance("yaml_style:none", 15) {
+		return // the whole file as Marshal writes it
+	}
 	styles := map[string]ScalarStyle{}
 	for _, s := range YAMLStringSites(*m) {
 		l := "yaml_style:" + s.Path
